@@ -67,18 +67,18 @@ theorem skipN_runT (f : Nat) : ∀ (k n : Nat) (a : Bytes) (T : List Token), 3 *
 /-- `t` is the text of the token `tok`: followed by anything `F` admits, the lexer turns it into
 `tok` in `k` state functions and is back in its start state behind it -/
 def Lexeme (t : Bytes) (tok : Token) (F : Bytes → Prop) : Prop :=
-  t ≠ [] ∧ ∃ k, k ≤ 2 ∧ ∀ (f n : Nat) (x : Bytes) (T : List Token), F x → t.length < f →
+  t ≠ [] ∧ ∃ k, k ≤ t.length + 1 ∧ ∀ (f n : Nat) (x : Bytes) (T : List Token), F x → t.length < f →
     runT f (n + k) (t ++ x) T = runT f n x (tok :: T)
 
 theorem lexeme_ident (t : Bytes) (h : IsIdentText t) : Lexeme t (identTok t) FIdent := by
-  refine ⟨by obtain ⟨b, bs, rfl, _⟩ := h; simp, 2, Nat.le_refl _, ?_⟩
+  refine ⟨by obtain ⟨b, bs, rfl, _⟩ := h; simp, 2, by obtain ⟨b, bs, rfl, _⟩ := h; simp, ?_⟩
   intro f n x T hF hf
   unfold runT
   rw [show St0 (t ++ x) = ⟨0, [], t ++ x, 0⟩ from rfl, ident_steps f n 0 0 t x T h hF hf]
   exact lexFrom_indepT f n _ _ _ ⟨rfl, rfl⟩
 
 theorem lexeme_int (t : Bytes) (h : IsIntText t) : Lexeme t (intTok t) FInt := by
-  refine ⟨h.1, 2, Nat.le_refl _, ?_⟩
+  refine ⟨h.1, 2, by cases t with | nil => exact absurd rfl h.1 | cons _ _ => simp, ?_⟩
   intro f n x T hF hf
   unfold runT
   rw [show St0 (t ++ x) = ⟨0, [], t ++ x, 0⟩ from rfl, int_steps f n 0 0 t x T h hF hf]
@@ -86,7 +86,7 @@ theorem lexeme_int (t : Bytes) (h : IsIntText t) : Lexeme t (intTok t) FInt := b
 
 theorem lexeme_str (body : Bytes) (h : ∀ b ∈ body, plainByte b) :
     Lexeme (strText body) { typ := .STR, val := strText body } FStr := by
-  refine ⟨by simp [strText], 2, Nat.le_refl _, ?_⟩
+  refine ⟨by simp [strText], 2, by simp [strText], ?_⟩
   intro f n x T hF hf
   unfold runT
   rw [show St0 (strText body ++ x) = ⟨0, [], strText body ++ x, 0⟩ from rfl,
@@ -95,7 +95,7 @@ theorem lexeme_str (body : Bytes) (h : ∀ b ∈ body, plainByte b) :
 
 theorem lexeme_op1 (b : UInt8) (typ : TokType) (hb : b < 0x80) (h2 : twoRuneOf (b.toNat : Int) = none)
     (h1 : oneRuneOf (b.toNat : Int) = some typ) : Lexeme [b] { typ := typ, val := [b] } (fun _ => True) := by
-  refine ⟨by simp, 1, by omega, ?_⟩
+  refine ⟨by simp, 1, by simp, ?_⟩
   intro f n x T _ _
   unfold runT
   rw [show St0 ([b] ++ x) = ⟨0, [], b :: x, 0⟩ from rfl, op1_steps f n 0 0 b typ x T hb h2 h1]
@@ -104,7 +104,7 @@ theorem lexeme_op1 (b : UInt8) (typ : TokType) (hb : b < 0x80) (h2 : twoRuneOf (
 theorem lexeme_op2first (b : UInt8) (want : Nat) (t2 t1 : TokType) (hb : b < 0x80)
     (h2 : twoRuneOf (b.toNat : Int) = some (want, t2)) (h1 : oneRuneOf (b.toNat : Int) = some t1) :
     Lexeme [b] { typ := t1, val := [b] } (fun x => (firstRune x == (want : Int)) = false) := by
-  refine ⟨by simp, 1, by omega, ?_⟩
+  refine ⟨by simp, 1, by simp, ?_⟩
   intro f n x T hF _
   unfold runT
   rw [show St0 ([b] ++ x) = ⟨0, [], b :: x, 0⟩ from rfl, op2first_steps f n 0 0 b want t2 t1 x T hb h2 h1 hF]
@@ -112,7 +112,7 @@ theorem lexeme_op2first (b : UInt8) (want : Nat) (t2 t1 : TokType) (hb : b < 0x8
 
 theorem lexeme_op2 (b c : UInt8) (t2 : TokType) (hb : b < 0x80) (hc : c < 0x80)
     (h2 : twoRuneOf (b.toNat : Int) = some (c.toNat, t2)) : Lexeme [b, c] { typ := t2, val := [b, c] } (fun _ => True) := by
-  refine ⟨by simp, 1, by omega, ?_⟩
+  refine ⟨by simp, 1, by simp, ?_⟩
   intro f n x T _ _
   unfold runT
   rw [show St0 ([b, c] ++ x) = ⟨0, [], b :: c :: x, 0⟩ from rfl, op2_steps f n 0 0 b c t2 x T hb hc h2]
